@@ -54,16 +54,34 @@ class Gen:
             d[self.key()] = self.value(depth - 1, width)
         return d
 
+    def twin(self, v):
+        """A value that is == to v (or v again) but of another type where Python has one: items of a
+        container must be judged independently even when they are equal / hash-equal."""
+        if isinstance(v, bool):
+            return self.r.choice([int(v), float(v), v])
+        if isinstance(v, int) and abs(v) < 2 ** 53:
+            return self.r.choice([float(v), v] + ([bool(v)] if v in (0, 1) else []))
+        if isinstance(v, float) and v == int(v) and abs(v) < 2 ** 53:
+            return self.r.choice([int(v), v] + ([bool(v)] if v in (0.0, 1.0) else []) + ([-v] if v == 0 else []))
+        return copy_value(v)
+
     def container(self, depth=3, width=4, kind=None):
-        """A non-empty list or dict."""
+        """A non-empty list or dict; three in ten hold an equal-valued twin of one of their items."""
         kind = kind or self.r.choice(["list", "dict"])
         n = self.r.randint(1, width)
         if kind == "list":
-            return [self.value(depth - 1, width) for _ in range(n)]
+            out = [self.value(depth - 1, width) for _ in range(n)]
+            if self.r.random() < 0.3:
+                out.insert(self.r.randint(0, len(out)), self.twin(self.r.choice(out)))
+            return out
         d = {}
         while not d:
             for _ in range(n):
                 d[self.key()] = self.value(depth - 1, width)
+        if self.r.random() < 0.3:
+            k = self.r.choice(["t", "tw", 9, 2.25])
+            if k not in d:
+                d[k] = self.twin(self.r.choice(list(d.values())))
         return d
 
     def document(self, depth=4, width=4):
